@@ -9,6 +9,7 @@ package c02
 import (
 	"verif/core"
 	"verif/gjs"
+	"verif/props/c08"
 	"verif/props/minigo"
 	"verif/reg"
 )
@@ -20,4 +21,8 @@ func Run(c *core.Ctx, pool *gjs.Pool) {
 	c.Assumef("suspension points are the trace points of the programs (call sites inside expressions, conditions, case expressions, post statements, arguments, index expressions, range operands and bodies, append and multi-assignment operands, deferred call arguments and deferred function bodies, method-value receivers, method bodies); no other goroutine is runnable in between")
 	minigo.Check(c, pool, minigo.Config{Prop: "C02", Families: true, Random: c.Pick(250, 5000), Random2: c.Pick(120, 3000),
 		Modes: []minigo.Mode{{Name: "resumable", Flat: true, Masks: c.Pick(8, 48)}}})
+	// suspensions inside deferred functions during a return, a panic or Goexit: the
+	// families of UnwindScen.tla with suspension points (a stuttering step of Unwind.tla)
+	c08.RunYield(c, pool)
+	blockingPart(c, pool) // call kinds and soundness of the blocking analysis (blocking.go, spec/Blocking.tla)
 }
